@@ -221,6 +221,11 @@ class LocalFlow:
                     ds = flow.defs.get(node.id, [])
                     if len(ds) == 1 and ds[0][0] == 'value':
                         return T(self.d - 1).visit(copy.deepcopy(ds[0][1]))
+                    # `forest = self.proof_forest; forest[k] = v`: a second name for an object; stores through it do not rebind it
+                    binds = [d for d in ds if d[0] != 'update']
+                    if len(binds) == 1 and binds[0][0] == 'value' and access_path(binds[0][1]) is not None and \
+                            isinstance(binds[0][1], (ast.Name, ast.Attribute)):
+                        return T(self.d - 1).visit(copy.deepcopy(binds[0][1]))
                 return node
         return T(depth).visit(copy.deepcopy(expr))
 
